@@ -155,8 +155,7 @@ def probe_errors(fn):
                 for flags in itertools.product([False, True], repeat=n):
                     ws = [(SandboxedValue if i % 2 == 0 else ExactValue)(ValueError("probe") if f else i)
                           for i, f in enumerate(flags)]
-                    got = fn(*ws)
-                    if got is not any(flags):
+                    if bool(fn(*ws)) is not any(flags):
                         ok = False
         except Exception:
             ok = False
